@@ -3,6 +3,7 @@ package tree
 
 import (
 	"fmt"
+	"math"
 	"sort"
 	"strconv"
 	"strings"
@@ -186,6 +187,9 @@ func canonGo(v interface{}, sb *strings.Builder, keepEmptyList bool) {
 	case float64:
 		if x == float64(int64(x)) && x > -1e15 && x < 1e15 {
 			fmt.Fprintf(sb, "%d", int64(x))
+		} else if x == math.Trunc(x) && math.Abs(x) < 1e30 {
+			// an integral float prints like the integer of the same value
+			sb.WriteString(strconv.FormatFloat(x, 'f', 0, 64))
 		} else {
 			fmt.Fprintf(sb, "%v", x)
 		}
